@@ -91,6 +91,8 @@ pub fn handler_reply(v: &PJ, id: Value, transport: Transport) -> ExpReply {
 	let h = Some(method.clone());
 	match method.as_str() {
 		"sync_echo" | "async_echo" | "blocking_echo" => ExpReply { id, payload: Payload::Result(srv::echo_result(&method, params.as_ref())), handler: h },
+		// every call, alone or in a batch, on either transport, carries the connection's id
+		"whoami" => ExpReply { id, payload: Payload::Result(json!({"has_connection_id": true})), handler: h },
 		"blocking_panic" => ExpReply { id, payload: Payload::Err(vec![-32603]), handler: h },
 		"add" => {
 			let ok = match &params {
